@@ -151,6 +151,48 @@ fn exponent(rng: &mut Rng, kind: u64, maxdigits: usize) -> Vec<u64> {
     }
 }
 
+/// moduli with runs of all-ones digits against bases 2^(64k) - 2^j (also part of the C16 configuration transcript)
+pub fn ones_run_family(r: &mut Rec, kmax: usize) {
+    // moduli with runs of all-ones digits (at the top, in the middle, everywhere) against bases 2^(64k) - 2^j and bases with
+    // all-ones digits at the same positions: the Montgomery reduction then meets an all-ones digit pair with a borrow or a
+    // carry coming in (lost with probability 2^-64 on random operands)
+    for k in 2..=kmax {
+        for shape in 0..4 {
+            let mut m = vec![u64::MAX; k];
+            match shape {
+                0 => {}                                   // 2^(64k) - 1
+                1 => m[0] = u64::MAX - 158,               // 2^(64k) - 159
+                2 => m[k - 1] = 0x7fff_ffff_ffff_ffff,    // top digit not full
+                _ => m[0] = 0x1234_5678_9abc_def1,        // low digit random, all others ones
+            }
+            let mut js: Vec<usize> = vec![1];
+            for d in 1..k {
+                js.extend([64 * d - 1, 64 * d, 64 * d + 1]);
+            }
+            js.push(64 * k - 1);
+            for (n, &j) in js.iter().enumerate() {
+                // b = 2^(64k) - 2^j
+                let mut b = vec![u64::MAX; k];
+                for d in 0..(j / 64) {
+                    b[d] = 0;
+                }
+                b[j / 64] = u64::MAX << (j % 64);
+                let e: Vec<u64> = match (n + shape) % 3 {
+                    0 => vec![2],
+                    1 => vec![3],
+                    _ => vec![65537],
+                };
+                one_case(r, &format!("ones-run k{} shape{} j{}", k, shape, j), &b, &e, &m);
+            }
+            // the square of the modulus minus one / two, and an all-ones base one digit longer
+            let mut b = m.clone();
+            b[0] -= 1;
+            one_case(r, &format!("ones-run k{} shape{} m-1", k, shape), &b, &[2], &m);
+            one_case(r, &format!("ones-run k{} shape{} longer", k, shape), &vec![u64::MAX; k + 1], &[3], &m);
+        }
+    }
+}
+
 pub fn run(r: &mut Rec) {
     let mut rng = Rng(r.seed ^ 0xC05);
     let mlens: Vec<usize> = if r.thorough { vec![1, 2, 3, 4, 5, 8, 20] } else { vec![1, 2, 3, 5] };
@@ -226,42 +268,30 @@ pub fn run(r: &mut Rec) {
             }
         }
     }
-    // moduli with runs of all-ones digits (at the top, in the middle, everywhere) against bases 2^(64k) - 2^j and bases with
-    // all-ones digits at the same positions: the Montgomery reduction then meets an all-ones digit pair with a borrow or a
-    // carry coming in (lost with probability 2^-64 on random operands)
-    for k in 2..=(if r.thorough { 6usize } else { 5 }) {
-        for shape in 0..4 {
-            let mut m = vec![u64::MAX; k];
-            match shape {
-                0 => {}                                   // 2^(64k) - 1
-                1 => m[0] = u64::MAX - 158,               // 2^(64k) - 159
-                2 => m[k - 1] = 0x7fff_ffff_ffff_ffff,    // top digit not full
-                _ => m[0] = 0x1234_5678_9abc_def1,        // low digit random, all others ones
-            }
-            let mut js: Vec<usize> = vec![1];
-            for d in 1..k {
-                js.extend([64 * d - 1, 64 * d, 64 * d + 1]);
-            }
-            js.push(64 * k - 1);
-            for (n, &j) in js.iter().enumerate() {
-                // b = 2^(64k) - 2^j
-                let mut b = vec![u64::MAX; k];
-                for d in 0..(j / 64) {
-                    b[d] = 0;
+    ones_run_family(r, if r.thorough { 6 } else { 5 });
+    // long even moduli (no Montgomery: plain square-and-multiply through Karatsuba-sized products and full divisions) with
+    // sparse bases that have zero digits at the split points of the multiplication
+    for ml in if r.thorough { vec![66usize, 67, 70, 96, 130] } else { vec![66, 70] } {
+        let mut m = vec![0u64; ml + 1];
+        m[ml] = 1;                                   // 2^(64 ml): even, residues are the low digits
+        let mut m2 = digits(&mut rng, ml, Pat::Random);
+        m2[0] &= !1;
+        m2[ml - 1] |= 1 << 63;
+        for (mi, md) in [m, m2].iter().enumerate() {
+            let mut b = vec![0u64; ml];
+            b[0] = 1;
+            b[20] = 1;
+            b[ml - 1] = 1;                            // 2^(64(ml-1)) + 2^1280 + 1: zero digit at len/2 - 1
+            let mut b2 = digits(&mut rng, ml, Pat::Random);
+            b2[ml / 2 - 1] = 0;
+            for (bi, bd) in [b, b2].iter().enumerate() {
+                for e in [2u64, 3, 5] {
+                    if !r.thorough && (e as usize + bi + mi) % 2 == 0 {
+                        continue;
+                    }
+                    one_case(r, &format!("long even m{} #{} base{} e{}", ml, mi, bi, e), bd, &[e], md);
                 }
-                b[j / 64] = u64::MAX << (j % 64);
-                let e: Vec<u64> = match (n + shape) % 3 {
-                    0 => vec![2],
-                    1 => vec![3],
-                    _ => vec![65537],
-                };
-                one_case(r, &format!("ones-run k{} shape{} j{}", k, shape, j), &b, &e, &m);
             }
-            // the square of the modulus minus one / two, and an all-ones base one digit longer
-            let mut b = m.clone();
-            b[0] -= 1;
-            one_case(r, &format!("ones-run k{} shape{} m-1", k, shape), &b, &[2], &m);
-            one_case(r, &format!("ones-run k{} shape{} longer", k, shape), &vec![u64::MAX; k + 1], &[3], &m);
         }
     }
     // bases that are exact multiples of the modulus, or a multiple plus something shorter than the modulus
